@@ -126,8 +126,6 @@ def run_chunk(ctx, exe, env, cases, idx, res, tag="rep"):
             if rc == 0:
                 break
             restarts += 1
-            if restarts > 400:
-                raise Broken("replayer kept crashing; last log:\n%s" % out[-3000:])
             last, done = None, -1
             for line in open(outp):
                 try:
@@ -145,6 +143,10 @@ def run_chunk(ctx, exe, env, cases, idx, res, tag="rep"):
             start = last["beh"] + 1
             lines = [l for l in open(outp) if '"crash"' not in l]
             open(outp, "w").writelines(lines)
+            if restarts >= MAX_RESTARTS:
+                # a crash storm (every restart costs seconds): the violations are established, stop this chunk
+                ctx.cov["replay_chunks_cut_after_crashes"] = ctx.cov.get("replay_chunks_cut_after_crashes", 0) + 1
+                break
         for line in open(outp):
             try:
                 rec = json.loads(line)
@@ -270,6 +272,7 @@ def describe(beh, upto):
 
 
 MAX_REPORTS = 40
+MAX_RESTARTS = 30
 
 
 def report(ctx, sig, what, replay):
@@ -287,23 +290,12 @@ _tlc_slots = threading.Semaphore(4)
 def gen(ctx, cfg, sim=None, depth=None, workers=2, timeout=1500):
     # a simulation that hits the timeout still delivers the behaviours printed so far
     with _tlc_slots:
-        g = ctx.tlc("mc/MC_DeviceMemory.tla", cfg, workers=workers, simulate=sim, depth=(depth + 1 if depth else None), timeout=timeout,
-                    deadlock=(sim is None))
+        g = ctx.tlc("mc/MC_DeviceMemory.tla", cfg, workers=workers, simulate=sim, depth=(depth + 2 if depth else None), timeout=timeout)
     if g.rc not in (0,) and not g.printed:
         raise Broken("generation failed (%s): %s" % (cfg, g.out[-2000:]))
     bs = b_json(g)
     if not bs:
         raise Broken("no behaviours generated by %s:\n%s" % (cfg, g.out[-1500:]))
-    if sim is not None:
-        # in simulation TLC evaluates the Emit constraint on every candidate last step of a trace: keep
-        # at most one valid and one failing last call per trace prefix
-        kept, seen = [], set()
-        for b in bs:
-            key = (json.dumps([s["c"] for s in b[:-1]], sort_keys=True), b[-1]["res"])
-            if key not in seen:
-                seen.add(key)
-                kept.append(b)
-        bs = kept
     return bs
 
 
@@ -437,9 +429,9 @@ def run(ctx):
         par.go("design", design)
         # 2. behaviours
         if thorough:
-            plan = [("mc/DM_gen2t.cfg", None, None), ("mc/DM_shapes_t.cfg", None, None), ("mc/DM_sim.cfg", 1500, 15)]
+            plan = [("mc/DM_gen2t.cfg", None, None), ("mc/DM_shapes_t.cfg", None, None), ("mc/DM_sim.cfg", 400, 15)]
         else:
-            plan = [("mc/DM_gen2.cfg", None, None), ("mc/DM_shapes.cfg", None, None), ("mc/DM_sim.cfg", 40, 15)]
+            plan = [("mc/DM_gen2.cfg", None, None), ("mc/DM_shapes.cfg", None, None), ("mc/DM_sim.cfg", 25, 15)]
         for cfg, sim, depth in plan:
             par.go(cfg, gen, ctx, cfg, sim, depth, workers=(W if sim else 2))
         # 3. random driver + trace validation, concurrently
@@ -494,7 +486,7 @@ def run(ctx):
                 cases.append(c2)
 
     t_gen = time.time() - ctx.t0
-    outs, crashes = replay_all(ctx, exe, env, cases, 8 if thorough else 4)
+    outs, crashes = replay_all(ctx, exe, env, cases, 8 if thorough else 6)
     t_rep = time.time() - ctx.t0 - t_gen
 
     steps_checked = calls_executed = 0
